@@ -25,7 +25,7 @@ static const char *z_opname(int k)
 enum { CF_ES, CF_JUNK, CF_RAND, CF_MAXN };
 
 #define MAXN 70100
-#define MAXES 520
+#define MAXES 5008
 
 static unsigned char *arr, *scratch, *ref;      /* ref: harness copy (real heap) */
 static size_t es, n, kb;
@@ -322,10 +322,13 @@ static void z_exec(const plan_t *p)
         }
         case Z_VSEARCH: {
             static const uint64_t counts[] = { ((uint64_t)1 << 30) + 3, ((uint64_t)1 << 31) - 1, (uint64_t)1 << 31, ((uint64_t)1 << 31) + 1, ((uint64_t)1 << 32) + 5,
-                                               ((uint64_t)1 << 33) + 1, (uint64_t)1 << 40, 3000000000ull, 1500000000ull, ((uint64_t)1 << 62) / 24 };
+                                               ((uint64_t)1 << 33) + 1, (uint64_t)1 << 40, 3000000000ull, 1500000000ull, ((uint64_t)1 << 62) / 24,
+                                               ((uint64_t)1 << 62) + 1, (uint64_t)3 << 61, ((uint64_t)1 << 63) - 1, ((uint64_t)1 << 63) - 2 };
             uint64_t target; int present;
-            vcount = counts[o->a[0] % 10]; vbase = (uintptr_t)0x10000000u * 16;       /* never dereferenced */
-            if (vcount > ((uint64_t)1 << 62) / es) vcount = ((uint64_t)1 << 62) / es;  /* the array must fit into the address space */
+            vcount = counts[o->a[0] % 14]; vbase = (uintptr_t)0x10000000u * 16;       /* never dereferenced */
+            /* the array must fit into the address space behind its base, and its indices into the ssize_t that search returns */
+            if (vcount > (UINT64_MAX - vbase - 4096) / es) vcount = (UINT64_MAX - vbase - 4096) / es;
+            if (vcount > ((uint64_t)1 << 62)) PROBE("virtual_search_above_2^62");
             switch (o->a[1] % 6) {
             case 0: target = 0; break; case 1: target = vcount - 1; break; case 2: target = vcount / 2 + 1; break;
             case 3: target = vcount - 1 - o->a[2] % 1000; break; case 4: target = vcount + o->a[2] % 1000; break;     /* absent: above every element */
@@ -417,7 +420,7 @@ static void z_exec(const plan_t *p)
 
 static void z_gen(prng_t *r, int mode, plan_t *p)
 {
-    static const int sizes[] = { 1, 2, 4, 8, 1, 2, 4, 8, 3, 5, 16, 24, 7, 12, 255, 256, 257, 300, 512 };
+    static const int sizes[] = { 1, 2, 4, 8, 1, 2, 4, 8, 3, 5, 16, 24, 7, 12, 255, 256, 257, 300, 512, 1, 2, 4, 8, 3, 16, 1000, 1024, 1025, 1500, 2048, 2049, 4096, 4097, 5000 };
     int huge = prng_chance(r, 1, 400);
     int large = !huge && prng_chance(r, 1, 20), small = !large && !huge && prng_chance(r, 1, 4);
     int rounds = huge ? 1 : 1 + (int)prng_below(r, 3), q, j;
@@ -444,7 +447,8 @@ static void z_gen(prng_t *r, int mode, plan_t *p)
     if (mode == 111) {          /* the virtual-array batch */
         int nq = 4 + (int)prng_below(r, 8);
         p->nops = 0;
-        for (j = 0; j < nq; j++) { op_t *s = plan_add(p, Z_VSEARCH); s->a[0] = prng_below(r, 10); s->a[1] = prng_below(r, 6); s->a[2] = prng_next(r) >> 8; }
+        if (g_gen_index % 2 == 0) p->cfg[CF_ES] = 1 + (g_gen_index / 2) % 3;      /* small elements: only these allow counts beyond 2^62 */
+        for (j = 0; j < nq; j++) { op_t *s = plan_add(p, Z_VSEARCH); s->a[0] = prng_below(r, 14); s->a[1] = prng_below(r, 6); s->a[2] = prng_next(r) >> 8; }
         if (prng_chance(r, 1, 20)) { op_t *s = plan_add(p, Z_VREVERSE); s->a[0] = prng_below(r, 4); }
         return;
     }
